@@ -146,4 +146,253 @@ theorem afterTitle_frame (k : Str) (r : Option Str × MSt) :
     · exact ⟨rfl, rfl, rfl, rfl, rfl, rfl, rfl, rfl, rfl, rfl, rfl⟩
   · exact ⟨rfl, rfl, rfl, rfl, rfl, rfl, rfl, rfl, rfl, rfl, rfl⟩
 
+/-! ### stage 3 (summary / description / content): inversion and frame lemmas -/
+
+theorem startContentL_ok (s : Core) (k : Str) (a : List (Str × Str)) (ty : Str) (e : Bool) (c' : Core) (es : List Elem)
+    (h : startContentL s k a ty e = .ok (c', es)) : c' = (pushContent s k a ty e).1 ∧ es = [(pushContent s k a ty e).2] := by
+  unfold startContentL at h
+  cases hs : startContent s k a ty e with
+  | error w => rw [hs] at h; cases h
+  | ok r =>
+    obtain ⟨c, pe⟩ := r
+    have hok := startContent_ok s k a ty e c pe hs
+    rw [hs] at h
+    rw [hok.2] at h
+    simp only [Except.ok.injEq, Prod.mk.injEq] at h
+    exact ⟨by rw [← h.1, hok.1], h.2.symm⟩
+
+theorem startContentElem_ok (c : Core) (a : List (Str × Str)) (c' : Core) (es : List Elem)
+    (h : startContentElem c a = .ok (c', es)) :
+    c' = contentElemCore c a ∧ es = [⟨S "content", true, []⟩, ⟨S "content", true, []⟩] := by
+  unfold startContentElem at h
+  split at h
+  · injection h with h; injection h with h1 h2; exact ⟨h1.symm, h2.symm⟩
+  · cases h
+
+/-- what the start handlers of stage 3 leave untouched, and that they open a text construct -/
+theorem startExt_frame (s : Core) (kind : Str) (a : List (Str × Str)) (c' : Core) (es : List Elem)
+    (h : startExt s kind a = .ok (c', es)) :
+    c'.entries = s.entries ∧ c'.inentry = s.inentry ∧ c'.feed = s.feed ∧ c'.version = s.version ∧ c'.nsMap = s.nsMap ∧
+    c'.nsInUse = s.nsInUse ∧ c'.infeed = s.infeed ∧ c'.depth = s.depth ∧ c'.incontent = true ∧ es ≠ [] := by
+  unfold startExt at h
+  simp only at h
+  have L : ∀ (s0 : Core) k ty e, startContentL s0 k a ty e = .ok (c', es) → s0.entries = s.entries → s0.inentry = s.inentry → s0.feed = s.feed → s0.version = s.version → s0.nsMap = s.nsMap →
+      s0.nsInUse = s.nsInUse → s0.infeed = s.infeed → s0.depth = s.depth →
+      c'.entries = s.entries ∧ c'.inentry = s.inentry ∧ c'.feed = s.feed ∧ c'.version = s.version ∧ c'.nsMap = s.nsMap ∧
+      c'.nsInUse = s.nsInUse ∧ c'.infeed = s.infeed ∧ c'.depth = s.depth ∧ c'.incontent = true ∧ es ≠ [] := by
+    intro s0 k ty e hh h1 h2 h3 h4 h5 h6 h7 h8
+    obtain ⟨hc, he⟩ := startContentL_ok _ _ _ _ _ _ _ hh
+    rw [hc, he]
+    exact ⟨h1, h2, h3, h4, h5, h6, h7, h8, rfl, by simp⟩
+  have E : ∀ (s0 : Core), startContentElem s0 a = .ok (c', es) → s0.entries = s.entries → s0.inentry = s.inentry → s0.feed = s.feed → s0.version = s.version → s0.nsMap = s.nsMap →
+      s0.nsInUse = s.nsInUse → s0.infeed = s.infeed → s0.depth = s.depth →
+      c'.entries = s.entries ∧ c'.inentry = s.inentry ∧ c'.feed = s.feed ∧ c'.version = s.version ∧ c'.nsMap = s.nsMap ∧
+      c'.nsInUse = s.nsInUse ∧ c'.infeed = s.infeed ∧ c'.depth = s.depth ∧ c'.incontent = true ∧ es ≠ [] := by
+    intro s0 hh h1 h2 h3 h4 h5 h6 h7 h8
+    obtain ⟨hc, he⟩ := startContentElem_ok _ _ _ _ hh
+    rw [hc, he]
+    exact ⟨h1, h2, h3, h4, h5, h6, h7, h8, rfl, by simp⟩
+  split at h
+  · split at h
+    · exact E _ h rfl rfl rfl rfl rfl rfl rfl rfl
+    · exact L _ _ _ _ h rfl rfl rfl rfl rfl rfl rfl rfl
+  · split at h
+    · exact L _ _ _ _ h rfl rfl rfl rfl rfl rfl rfl rfl
+    · split at h
+      · split at h
+        · exact E _ h rfl rfl rfl rfl rfl rfl rfl rfl
+        · exact L _ _ _ _ h rfl rfl rfl rfl rfl rfl rfl rfl
+      · split at h
+        · exact E _ h rfl rfl rfl rfl rfl rfl rfl rfl
+        · split at h
+          · exact L _ _ _ _ h rfl rfl rfl rfl rfl rfl rfl rfl
+          · cases h
+
+/-- the keys title / the plain text constructs push -/
+def isPlainKey (n : Str) : Bool := n == S "title" || Gen.Mixin.contentElementsL.any (·.2.1 == n)
+
+theorem ext_keys_not_plain : isPlainKey (S "content") = false ∧ isPlainKey (S "description") = false ∧ isPlainKey (S "summary") = false := by
+  decide +kernel
+
+theorem contentEndKey_plain (h k : Str) (hk : contentEndKey h = some k) : isPlainKey k = true := by
+  unfold contentEndKey at hk
+  unfold isPlainKey
+  split at hk
+  · injection hk with hk; rw [← hk]; rfl
+  · unfold contentKey at hk
+    cases hf : Gen.Mixin.contentElementsL.find? (·.1 == h) with
+    | none => rw [hf] at hk; cases hk
+    | some e =>
+      rw [hf] at hk
+      have hm := List.mem_of_find?_eq_some hf
+      simp only [Option.map_some, Option.some.injEq] at hk
+      have : Gen.Mixin.contentElementsL.any (·.2.1 == k) = true := List.any_eq_true.mpr ⟨e, hm, by rw [← hk]; simp⟩
+      simp [this]
+
+/-- the element on top after a start handler of stage 3 is `content`, `description` or `summary` — never a title / plain key -/
+theorem startExt_top (s : Core) (kind : Str) (a : List (Str × Str)) (c' : Core) (es : List Elem)
+    (h : startExt s kind a = .ok (c', es)) : ∃ e rest, es = e :: rest ∧ isPlainKey e.name = false := by
+  obtain ⟨k1, k2, k3⟩ := ext_keys_not_plain
+  unfold startExt at h
+  simp only at h
+  have L : ∀ (s0 : Core) k ty e, startContentL s0 k a ty e = .ok (c', es) → isPlainKey k = false → ∃ e rest, es = e :: rest ∧ isPlainKey e.name = false := by
+    intro s0 k ty e hh hk
+    obtain ⟨_, he⟩ := startContentL_ok _ _ _ _ _ _ _ hh
+    exact ⟨_, [], he, hk⟩
+  have E : ∀ (s0 : Core), startContentElem s0 a = .ok (c', es) → ∃ e rest, es = e :: rest ∧ isPlainKey e.name = false := by
+    intro s0 hh
+    obtain ⟨_, he⟩ := startContentElem_ok _ _ _ _ hh
+    exact ⟨_, _, he, k1⟩
+  split at h
+  · split at h
+    · exact E _ h
+    · exact L _ _ _ _ h k2
+  · split at h
+    · exact L _ _ _ _ h k2
+    · split at h
+      · split at h
+        · exact E _ h
+        · exact L _ _ _ _ h k3
+      · split at h
+        · exact E _ h
+        · split at h
+          · exact L _ _ _ _ h k1
+          · cases h
+
+/-- `saveDefault` touches the current context's dict only -/
+theorem saveDefault_frame (c : Core) (k : Str) (v : V) :
+    (saveDefault c k v).inentry = c.inentry ∧ (saveDefault c k v).version = c.version ∧ (saveDefault c k v).nsMap = c.nsMap ∧
+    (saveDefault c k v).nsInUse = c.nsInUse ∧ (saveDefault c k v).infeed = c.infeed ∧ (saveDefault c k v).depth = c.depth ∧
+    (saveDefault c k v).base = c.base ∧ (saveDefault c k v).incontent = c.incontent ∧ (saveDefault c k v).cp = c.cp ∧
+    (saveDefault c k v).entries.drop 1 = c.entries.drop 1 ∧ (saveDefault c k v).entries.length = c.entries.length := by
+  unfold saveDefault
+  split
+  · refine ⟨rfl, rfl, rfl, rfl, rfl, rfl, rfl, rfl, rfl, ?_, ?_⟩ <;> (cases c.entries <;> simp [updHead])
+  · exact ⟨rfl, rfl, rfl, rfl, rfl, rfl, rfl, rfl, rfl, rfl, rfl⟩
+
+/-- the complete entries (all but the one being filled) are untouched by `saveDefault` -/
+theorem saveDefault_older (c : Core) (k : Str) (v : V) :
+    (if (saveDefault c k v).inentry then (saveDefault c k v).entries.drop 1 else (saveDefault c k v).entries) =
+    (if c.inentry then c.entries.drop 1 else c.entries) := by
+  unfold saveDefault
+  by_cases hin : c.inentry = true
+  · simp only [hin, ↓reduceIte]
+    cases c.entries <;> simp [updHead]
+  · simp only [hin, Bool.false_eq_true, ↓reduceIte]
+
+theorem saveDefault_nonempty (c : Core) (k : Str) (v : V) (h : c.entries ≠ []) : (saveDefault c k v).entries ≠ [] := by
+  unfold saveDefault
+  split
+  · cases hc : c.entries with
+    | nil => exact absurd hc h
+    | cons e es => simp [updHead]
+  · exact h
+
+theorem endExt_ok (o : Ops) (s s' : MSt) (kind : Str) (h : endExt o s kind = .ok s') :
+    s' = ⟨endFinish o (endExtCore o s kind), (popContent o s (endPlan s.c kind).1).2.stack⟩ := by
+  unfold endExt at h
+  injection h with h; exact h.symm
+
+/-- what `endExtCore` preserves of the popped state, and that the text construct is left -/
+theorem endExtCore_frame (o : Ops) (s : MSt) (kind : Str) :
+    (endExtCore o s kind).inentry = (popContent o s (endPlan s.c kind).1).2.c.inentry ∧
+    (endExtCore o s kind).version = (popContent o s (endPlan s.c kind).1).2.c.version ∧
+    (endExtCore o s kind).nsMap = (popContent o s (endPlan s.c kind).1).2.c.nsMap ∧
+    (endExtCore o s kind).incontent = false ∧
+    (endExtCore o s kind).entries.drop 1 = (popContent o s (endPlan s.c kind).1).2.c.entries.drop 1 ∧
+    (endExtCore o s kind).entries.length = (popContent o s (endPlan s.c kind).1).2.c.entries.length := by
+  have hpc : (popContent o s (endPlan s.c kind).1).2.c.incontent = false := rfl
+  have hs : (endExtSaved o s kind).inentry = (popContent o s (endPlan s.c kind).1).2.c.inentry ∧
+      (endExtSaved o s kind).version = (popContent o s (endPlan s.c kind).1).2.c.version ∧
+      (endExtSaved o s kind).nsMap = (popContent o s (endPlan s.c kind).1).2.c.nsMap ∧
+      (endExtSaved o s kind).incontent = false ∧
+      (endExtSaved o s kind).entries.drop 1 = (popContent o s (endPlan s.c kind).1).2.c.entries.drop 1 ∧
+      (endExtSaved o s kind).entries.length = (popContent o s (endPlan s.c kind).1).2.c.entries.length := by
+    unfold endExtSaved
+    by_cases hc : copyToSummary s.c kind = true
+    · simp only [hc, ↓reduceIte]
+      have hsd := saveDefault_frame (popContent o s (endPlan s.c kind).1).2.c (S "summary")
+        (match (popContent o s (endPlan s.c kind).1).1 with | some v => .s v | none => .nil)
+      exact ⟨hsd.1, hsd.2.1, hsd.2.2.1, hsd.2.2.2.2.2.2.2.1.trans hpc, hsd.2.2.2.2.2.2.2.2.2.1, hsd.2.2.2.2.2.2.2.2.2.2⟩
+    · simp [hc, hpc]
+  unfold endExtCore
+  by_cases hp : (endPlan s.c kind).2.2 = true
+  · simp only [hp, ↓reduceIte]
+    exact hs
+  · simp only [hp, Bool.false_eq_true, ↓reduceIte]
+    exact hs
+
+theorem endExtCore_older (o : Ops) (s : MSt) (kind : Str) :
+    (if (endExtCore o s kind).inentry then (endExtCore o s kind).entries.drop 1 else (endExtCore o s kind).entries) =
+    (if (popContent o s (endPlan s.c kind).1).2.c.inentry then (popContent o s (endPlan s.c kind).1).2.c.entries.drop 1
+     else (popContent o s (endPlan s.c kind).1).2.c.entries) := by
+  have hs : (if (endExtSaved o s kind).inentry then (endExtSaved o s kind).entries.drop 1 else (endExtSaved o s kind).entries) =
+      (if (popContent o s (endPlan s.c kind).1).2.c.inentry then (popContent o s (endPlan s.c kind).1).2.c.entries.drop 1
+       else (popContent o s (endPlan s.c kind).1).2.c.entries) := by
+    unfold endExtSaved
+    by_cases hc : copyToSummary s.c kind = true
+    · simp only [hc, ↓reduceIte]
+      exact saveDefault_older _ _ _
+    · simp only [hc, Bool.false_eq_true, ↓reduceIte]
+  unfold endExtCore
+  by_cases hp : (endPlan s.c kind).2.2 = true
+  · simp only [hp, ↓reduceIte]; exact hs
+  · simp only [hp, Bool.false_eq_true, ↓reduceIte]; exact hs
+
+theorem endExtCore_nonempty (o : Ops) (s : MSt) (kind : Str) (h : (popContent o s (endPlan s.c kind).1).2.c.entries ≠ []) :
+    (endExtCore o s kind).entries ≠ [] := by
+  have hs : (endExtSaved o s kind).entries ≠ [] := by
+    unfold endExtSaved
+    by_cases hc : copyToSummary s.c kind = true
+    · simp only [hc, ↓reduceIte]; exact saveDefault_nonempty _ _ _ h
+    · simp only [hc, Bool.false_eq_true, ↓reduceIte]; exact h
+  unfold endExtCore
+  by_cases hp : (endPlan s.c kind).2.2 = true
+  · simp only [hp, ↓reduceIte]; exact hs
+  · simp only [hp, Bool.false_eq_true, ↓reduceIte]; exact hs
+
+/-- table facts about the hand-modelled kinds: they have handlers, are not structural, not date elements, not title / plain text constructs -/
+theorem ext_names_facts :
+    Gen.Mixin.handModelledL.all (fun e => hasStart e.1 && hasEnd e.1 && (dateKey e.1).isNone && (contentEndKey e.1).isNone &&
+      !(e.1 == S "rss") && !(e.1 == S "channel") && !(e.1 == S "feed") && !(e.1 == S "item") && !(e.1 == S "entry")) = true := by decide +kernel
+
+theorem extKind_facts (h kind : Str) (hk : extKind h = some kind) :
+    hasStart h = true ∧ hasEnd h = true ∧ dateKey h = none ∧ contentEndKey h = none ∧
+    (h == S "rss") = false ∧ (h == S "channel") = false ∧ (h == S "feed") = false ∧ (h == S "item") = false ∧ (h == S "entry") = false := by
+  unfold extKind at hk
+  cases hf : Gen.Mixin.handModelledL.find? (·.1 == h) with
+  | none => rw [hf] at hk; cases hk
+  | some e =>
+    have hm := List.mem_of_find?_eq_some hf
+    have he := List.find?_some hf
+    have hall := List.all_eq_true.mp ext_names_facts e hm
+    have : e.1 = h := by simpa using he
+    rw [this] at hall
+    simp only [Bool.and_eq_true, Bool.not_eq_true', Option.isNone_iff_eq_none] at hall
+    obtain ⟨⟨⟨⟨⟨⟨⟨⟨a, b⟩, c⟩, d⟩, e1⟩, e2⟩, e3⟩, e4⟩, e5⟩ := hall
+    exact ⟨a, b, c, d, e1, e2, e3, e4, e5⟩
+
+theorem extKind_none_of_noStart (h : Str) (hno : hasStart h = false) : extKind h = none := by
+  cases hk : extKind h with
+  | none => rfl
+  | some k => have := (extKind_facts h k hk).1; rw [hno] at this; cases this
+
+theorem extKind_none_of_noEnd (h : Str) (hno : hasEnd h = false) : extKind h = none := by
+  cases hk : extKind h with
+  | none => rfl
+  | some k => have := (extKind_facts h k hk).2.1; rw [hno] at this; cases this
+
+theorem dateKey_not_ext (h : Str) (kp : Str × Str) (hk : dateKey h = some kp) : extKind h = none := by
+  cases hx : extKind h with
+  | none => rfl
+  | some kind => have := (extKind_facts h kind hx).2.2.1; rw [hk] at this; cases this
+
+theorem isTitle_not_ext (h : Str) (ht : isTitle h = true) : extKind h = none := by
+  cases hx : extKind h with
+  | none => rfl
+  | some kind =>
+    have := (extKind_facts h kind hx).2.2.2.1
+    unfold contentEndKey at this
+    simp [ht] at this
+
 end FeedVerif.Mixin
